@@ -13,9 +13,13 @@ Fixpoint qlist_eqb_v (a b : list Q) : bool :=
   | _, _ => false
   end.
 
-(* The incumbent written at the end of a noisy iteration (re-estimation / swap, optimize() l.1372-1411)
-   keeps the incumbent POINT: the swap assigns self.u, which the next iteration overwrites with
-   self.u_best, and u_best is untouched. *)
+(* The incumbent written at the end of a noisy iteration (re-estimation / swap, optimize() l.1372-1411):
+   either the current iterate with re-estimated (fval, fsd), or — when an earlier iterate looks better —
+   the (point, observed value) of one of the RECORDED iterates (after repair 377f545 the swap updates
+   u_best; before it the point was lost).  In both cases the pair (u, yval) is that of the current
+   incumbent or of a history row. *)
+Definition pair_eqb (c d : inc) : bool := qlist_eqb_v (i_u c) (i_u d) && Qeq_bool (i_y c) (i_y d).
+
 Definition noisy_u_ok_iter (o : opts) (s : st) (ev : iter_ev) : bool :=
   if fin s || exn s then true else
   let s0 := lock_ks o s in
@@ -25,7 +29,10 @@ Definition noisy_u_ok_iter (o : opts) (s : st) (ev : iter_ev) : bool :=
   let s3 := if dopoll then poll_phase o (ie_SI ev) (ie_poll ev) s2 else s2 in
   if exn s3 then true else
   if negb (o_det o) && dopoll && (0 <? piter s3)
-  then match ie_noisy ev with Some c => qlist_eqb_v (i_u c) (i_u (cur s3)) | None => true end
+  then match ie_noisy ev with
+       | Some c => pair_eqb c (cur s3) || existsb (fun h => pair_eqb c (h_inc h)) (hist s3)
+       | None => true
+       end
   else true.
 
 Fixpoint noisy_u_ok (o : opts) (s : st) (evs : list iter_ev) : bool :=
